@@ -191,3 +191,5 @@ func newCtx() (context.Context, context.CancelFunc) {
 	root := context.WithValue(context.Background(), env.RootKey, true)
 	return context.WithCancel(root)
 }
+
+func ipmiRecordID(id int) ipmi.RecordID { return ipmi.RecordID(id) }
